@@ -3,6 +3,7 @@ import Iec.Lemmas.HpQueue
 import Iec.Lemmas.MsgQueueOrder
 import Iec.Props.C06
 import Iec.Gen.Consts104
+import Iec.Lemmas.Srv104HWf
 /-
 C13 — Event ordering and response priority on a CS104 server connection.
 
@@ -186,5 +187,17 @@ theorem reply_ring_geometry_matches_source :
     (HpQueue.create 1).size = Iec.Gen.hpSize1 ∧ (HpQueue.create 5).size = Iec.Gen.hpSize5 ∧
     Iec.Gen.hpSize1 = Iec.Gen.hpEntryHeader + 256 := by
   decide
+
+/-! ### every history of the server -/
+
+/-- **the reply ring and the event ring of every redundancy group / connection are well-formed in every reachable server
+state**: from a freshly created server (queues for at least one entry), after any sequence of ticks, enqueues, restarts and
+environment events both rings satisfy their layout invariants - the hypotheses of `reply_ring_refines_fifo`,
+`events_transmitted_in_enqueue_order` and `resume_with_oldest_unconfirmed` hold in every reachable state. -/
+theorem server_rings_wellformed (p : Iec.Srv104.Params) (gs : List (String × List (Bool × List Nat)))
+    (hl : 1 ≤ p.lowQ) (hh : 1 ≤ p.highQ) (ops : List Iec.Srv104.WOp) (g : Nat) :
+    (∃ up low, HpInv ((ops.foldl Iec.Srv104.WOp.apply (Iec.Srv104.create p gs)).grp g).highQ up low) ∧
+    (∃ up low, MqInv ((ops.foldl Iec.Srv104.WOp.apply (Iec.Srv104.create p gs)).grp g).lowQ up low) :=
+  ⟨(Iec.Srv104.run_hgok p gs hh ops).2 g, ((Iec.Srv104.run_gok p gs hl ops).2 g).1⟩
 
 end Iec.Props.C13
